@@ -8,14 +8,26 @@ only = [a for a in sys.argv[2:] if not a.startswith("--json=")]
 json_out = next((a[7:] for a in sys.argv[2:] if a.startswith("--json=")), None)
 RESULTS = {}
 claimed = sorted(f[:-3] for f in os.listdir(os.path.join(VERIF, "sa", "rules")) if f.startswith("C") and f.endswith(".py"))
-for pid in sorted(os.listdir(root)):
+def seeds():
+    """(pid, k, patch file, meta file) for both layouts: <root>/<Cxx>/seed<k>.patch.diff and <root>/<Cxx>-<k>/patch.diff"""
+    for name in sorted(os.listdir(root)):
+        d = os.path.join(root, name)
+        if not os.path.isdir(d):
+            continue
+        if os.path.exists(os.path.join(d, "patch.diff")):
+            pid, _, k = name.partition("-")
+            yield pid, k, os.path.join(d, "patch.diff"), os.path.join(d, "meta.json")
+        else:
+            for k in range(1, 10):
+                pf = os.path.join(d, f"seed{k}.patch.diff")
+                if os.path.exists(pf):
+                    yield name, str(k), pf, os.path.join(d, f"seed{k}_meta.json")
+
+
+for pid, k, pf, mf in seeds():
     if only and pid not in only:
         continue
-    d = os.path.join(root, pid)
-    for k in (1, 2, 3, 4, 5):
-        pf = os.path.join(d, f"seed{k}.patch.diff")
-        if not os.path.exists(pf):
-            continue
+    if True:
         tmp = tempfile.mkdtemp(prefix="seedtest-")
         try:
             shutil.copytree("/repo/pint", os.path.join(tmp, "pint"), ignore=shutil.ignore_patterns("testsuite", "__pycache__"))
@@ -34,7 +46,9 @@ for pid in sorted(os.listdir(root)):
                     hits.append((c, ["ANALYSIS-ERROR " + rr.stdout.strip().splitlines()[-1][:150]]))
             meta = {}
             try:
-                meta = json.load(open(os.path.join(d, f"seed{k}_meta.json")))
+                meta = json.load(open(mf))
+                meta.setdefault("function", meta.get("construct", "?"))
+                meta.setdefault("summary", meta.get("breaks", ""))
             except Exception:
                 pass
             own = [h for h in hits if h[0] == pid]
